@@ -25,6 +25,8 @@ import (
 // Paser represents a Redis serialization protocol (RESP) parser.
 type Parser struct {
 	reader io.Reader
+	// depth is the number of arrays being parsed around the current message.
+	depth int
 }
 
 // NewParserWithReader returns a new parser for the specified reader.
@@ -137,6 +139,13 @@ func (parser *Parser) nextBulkMessage() (*Message, error) {
 
 // nextArrayMessage gets a next array message in the next array.
 func (parser *Parser) nextArrayMessage() (*Message, error) {
+	// The nesting is parsed recursively: a stream of array headers must not
+	// be able to exhaust the goroutine stack, which aborts the process.
+	if maxArrayDepth <= parser.depth {
+		return nil, fmt.Errorf(errorTooDeepArray, parser.depth+1, maxArrayDepth)
+	}
+	parser.depth++
+	defer func() { parser.depth-- }()
 	array, err := newArrayWithParser(parser)
 	if err != nil {
 		return nil, err
